@@ -39,6 +39,7 @@ func (g *gogen) name(prefix string) string {
 
 var ggLits = []string{"0", "1", "9223372036854775807", "1234567890123456789012345678901234567890", "1e100", "0x1p-2", "1.5", "2i", "'a'", `'\n'`, `'\''`, `"s"`, `"a\"b\\"`, "`raw\nline`", `""`, "0.1", "1_000", "0b101", "0o17", "0xFF", `'\u00e9'`, `"é\x00\xff"`, "1e-7", "100000.0", "0X1F", "0B11", "1E3", "0O17", "0X1P-2", "1E3i", "0XFFFFFFFFFFFFFFFFFFFF", "0X1P-2i", "0B1i"}
 var ggPredecl = []string{"nil", "true", "int", "err", "iota", "string", "any", "false", "error", "byte", "rune", "float64", "uint8", "comparable"}
+var ggBuiltins = []string{"len", "cap", "append", "make", "new", "copy", "delete", "panic", "print", "println", "recover", "real", "imag", "complex", "close", "clear", "min", "max"}
 var ggUnary = []string{"-", "+", "!", "^", "*", "&", "<-"}
 var ggBinary = []string{"+", "-", "*", "/", "%", "&", "|", "^", "<<", ">>", "&^", "&&", "||", "==", "!=", "<", "<=", ">", ">="}
 var ggAssignOps = []string{"=", ":=", "+=", "-=", "*=", "/=", "%=", "&=", "|=", "^=", "<<=", ">>=", "&^="}
@@ -97,7 +98,7 @@ func (g *gogen) exprs(d, n int) string {
 
 // expr generates an expression; production 0 is an identifier.
 func (g *gogen) expr(d int) string {
-	nprod := 19
+	nprod := 20
 	if d >= g.maxE {
 		nprod = 4
 	}
@@ -188,6 +189,23 @@ func (g *gogen) expr(d int) string {
 		return g.qual("F") + "(" + g.expr(d+1) + ")"
 	case 17:
 		return "&" + g.typ(d+1) + "{" + g.exprs(d+1, g.pick(3)) + "}"
+	case 19: // a call of a built-in function (every built-in is a free variant)
+		switch b := ggBuiltins[g.pick0(len(ggBuiltins))]; b {
+		case "recover", "println":
+			return b + "()"
+		case "new":
+			return "new(" + g.typ(d+1) + ")"
+		case "make":
+			return "make([]" + g.typ(d+1) + ", " + g.expr(d+1) + ")"
+		case "append":
+			return "append(" + g.expr(d+1) + ", " + g.expr(d+1) + ", x...)"
+		case "complex", "copy", "delete", "print":
+			return b + "(" + g.expr(d+1) + ", " + g.expr(d+1) + ")"
+		case "min", "max":
+			return b + "(" + g.exprs(d+1, 1+g.pick(3)) + ")"
+		default:
+			return b + "(" + g.expr(d+1) + ")"
+		}
 	default:
 		return g.pexpr(d+1) + ".M(" + g.exprs(d+1, g.pick(3)) + ")"
 	}
@@ -710,7 +728,7 @@ func c01Generated(r *ev.Recorder) {
 		}
 	})
 	r.Note("generated", map[string]any{"programs": st.Executions, "per_deviation_level": st.PerLevel, "max_choice_points": st.MaxPoints, "results": kinds, "complete": st.Complete,
-		"rule": fmt.Sprintf("Go source generator with one default and up to 30 alternative productions per category (expressions 19, types 16, statements 30, declarations 10+16, literals %d, all unary/binary/assignment operators, every presence combination of slice/for/switch headers, imports: std, renamed std name, aliased, vendored location path, cgo with preamble); depth <= 3; every program with <= %d non-default choices", len(ggLits), dev)})
+		"rule": fmt.Sprintf("Go source generator with one default and up to 30 alternative productions per category (expressions 20 incl. calls of all 18 built-in functions, types 16, statements 30, declarations 10+16, literals %d, all unary/binary/assignment operators, every presence combination of slice/for/switch headers, imports: std, renamed std name, aliased, vendored location path, cgo with preamble); depth <= 3; every program with <= %d non-default choices", len(ggLits), dev)})
 	if !st.Complete {
 		r.NotExhaustive("generated programs: deadline reached")
 	}
